@@ -335,3 +335,55 @@ func succIndex(pred, succ *ssa.BasicBlock) int {
 	}
 	return -1
 }
+
+// isDispatcherCall: the call targets the function that looks the executor up in the command
+// table (found semantically, whatever it is called).
+func (p *Program) isDispatcherCall(cc *ssa.CallCommon) bool {
+	f := staticCallee(cc)
+	return f != nil && p.isDispatcher(f)
+}
+
+func (p *Program) isDispatcher(f *ssa.Function) bool {
+	if p.dispatcherFns == nil {
+		p.dispatcherFns = map[*ssa.Function]bool{}
+		for _, d := range p.dispatchers() {
+			p.dispatcherFns[d.Fn] = true
+		}
+	}
+	return p.dispatcherFns[f]
+}
+
+// connConstructor: the function of package redis that allocates and returns a *Conn.
+func (p *Program) connConstructor() *ssa.Function {
+	for _, fn := range p.RepoFuncs(pkgRedis) {
+		if fnPkgPath(fn) != pkgRedis || fn.Signature.Recv() != nil || fn.Parent() != nil {
+			continue
+		}
+		res := fn.Signature.Results()
+		if res.Len() != 1 || res.At(0).Type().String() != "*"+pkgRedis+".Conn" {
+			continue
+		}
+		alloc := false
+		allInstrs(fn, func(ins ssa.Instruction) {
+			if a, ok := ins.(*ssa.Alloc); ok && a.Heap && deref(a.Type()).String() == pkgRedis+".Conn" {
+				alloc = true
+			}
+		})
+		// also accept constructors that obtain the object elsewhere: identified by wrapping a net.Conn parameter
+		wraps := false
+		for _, par := range fn.Params {
+			if par.Type().String() == "net.Conn" {
+				wraps = true
+			}
+		}
+		if alloc || wraps {
+			return fn
+		}
+	}
+	return nil
+}
+
+func (p *Program) isConnConstructorCall(cc *ssa.CallCommon) bool {
+	f := staticCallee(cc)
+	return f != nil && f == p.connConstructor()
+}
